@@ -1,7 +1,7 @@
 """Batch runner for C03: runs a tool of a Build on files in a private directory, with stdin closed, a wall-clock
 limit and the whole process group killed on timeout.  Returns plain dicts (picklable across worker processes).
 
-job = {"files": {name: str|bytes}, "cmd": [toolname, arg...], "timeout": seconds, "env": {...}?,
+job = {"files": {name: str|bytes}, "cmd": [toolname, arg...], "timeout": seconds, "env": {...}?, "msglinks": [..]?,
        "want": [names of output files to return]?, "trace": event classes or None}
 result = {"rc", "sig", "timeout", "err", "out", "san", "files", "trace", "wall"}
 """
@@ -27,6 +27,11 @@ def _run_one(args):
             path = os.path.join(d, name)
             with open(path, "wb") as f:
                 f.write(content.encode("latin-1", "replace") if isinstance(content, str) else content)
+        for name in job.get("msglinks", ()):
+            # message catalogues next to the input: the tools look in the current directory first
+            src = os.path.join(bdir, name)
+            if os.path.exists(src):
+                os.symlink(src, os.path.join(d, name))
         env = dict(os.environ)
         env.update(benv)
         if job.get("env"):
